@@ -229,7 +229,13 @@ impl<'a> TraceGen<'a> {
     }
     /// a throwable class that contains no space (so that it parses)
     fn throwable_line(&self, rng: &mut Rng) -> String {
-        let c = self.class(rng);
+        let mut c = self.class(rng);
+        if rng.pct(4) {
+            c = format!("{}{}", rng.pick(&["\u{2003}", "\u{a0}", "\u{85}", " "]), c);
+        }
+        if rng.pct(3) {
+            return format!("{}: m{}", c, rng.pick(&["\u{85}", "\u{a0}", "\u{3000}", " "]));
+        }
         if rng.pct(60) {
             format!("{}: {}", c, rng.pick(MESSAGES))
         } else {
@@ -239,7 +245,8 @@ impl<'a> TraceGen<'a> {
     fn frame_line(&self, rng: &mut Rng) -> String {
         let c = self.class(rng);
         let m = self.method_for(rng, &c);
-        let indent = rng.pick(&["    ", "\t", "  ", "", "        "]);
+        // (`str::trim` strips every White_Space code point, not only ASCII blanks)
+        let indent = rng.pick(&["    ", "\t", "  ", "", "        ", "    ", "\t", "\u{a0}", "\u{2003}", "\u{3000} ", "\u{b}", "\u{85}\t", "\u{2028}"]);
         match rng.below(12) {
             0 => format!("{}at {}.{}(Native Method)", indent, c, m),
             1 => format!("{}at {}.{}(Unknown Source)", indent, c, m),
